@@ -66,6 +66,10 @@ func main() {
 			w.Flush()
 		}
 	default:
+		if f, ok := commands[os.Args[1]]; ok { // extra sub-commands registered by a stream file
+			f(os.Args[2:])
+			return
+		}
 		fmt.Fprintln(os.Stderr, "usage: harness gen|run ...")
 		os.Exit(2)
 	}
